@@ -15,30 +15,183 @@ def FrameOK (sz : Nat) (frame : Word) : Prop :=
   else frame &&& 0xfff000003fffffff#64 = 0#64
 
 private theorem leaf4k_bits (frame fl : Word) (hf : frame &&& 0xfff0000000000fff#64 = 0#64)
-    (h1 : fl &&& 1#64 = 1#64) (h2 : fl &&& 0x000ffffffffff000#64 = 0#64) :
-    bitP (Pte.mk frame fl) = true ∧ tableAddr (Pte.mk frame fl) = frame ∧
+    (h2 : fl &&& 0x000ffffffffff000#64 = 0#64) :
+    bitP (Pte.mk frame fl) = bitP fl ∧ tableAddr (Pte.mk frame fl) = frame ∧
     leafFlags4K (Pte.mk frame fl) = fl ∧ Pte.aligned4K frame = true := by
   unfold bitP tableAddr leafFlags4K Pte.mk Pte.aligned4K
   unfold Word at *
   refine ⟨?_, ?_, ?_, ?_⟩ <;> bv_decide
 
 private theorem leaf2m_bits (frame fl : Word) (hf : frame &&& 0xfff00000001fffff#64 = 0#64)
-    (h1 : fl &&& 1#64 = 1#64) (h2 : fl &&& 0x000fffffffffe000#64 = 0#64) :
+    (h2 : fl &&& 0x000fffffffffe000#64 = 0#64) :
     let v := Pte.mk frame (fl ||| Pte.HUGE)
-    bitP v = true ∧ bitPS v = true ∧ addr2M v = frame ∧ leafFlagsHuge v = fl ||| 0x80#64 ∧
+    bitP v = bitP fl ∧ bitPS v = true ∧ addr2M v = frame ∧ leafFlagsHuge v = fl ||| 0x80#64 ∧
     Pte.aligned4K frame = true ∧ Pte.huge v = true := by
   unfold bitP bitPS addr2M leafFlagsHuge Pte.mk Pte.aligned4K Pte.huge Pte.HUGE
   unfold Word at *
   refine ⟨?_, ?_, ?_, ?_, ?_, ?_⟩ <;> bv_decide
 
 private theorem leaf1g_bits (frame fl : Word) (hf : frame &&& 0xfff000003fffffff#64 = 0#64)
-    (h1 : fl &&& 1#64 = 1#64) (h2 : fl &&& 0x000fffffffffe000#64 = 0#64) :
+    (h2 : fl &&& 0x000fffffffffe000#64 = 0#64) :
     let v := Pte.mk frame (fl ||| Pte.HUGE)
-    bitP v = true ∧ bitPS v = true ∧ addr1G v = frame ∧ leafFlagsHuge v = fl ||| 0x80#64 ∧
+    bitP v = bitP fl ∧ bitPS v = true ∧ addr1G v = frame ∧ leafFlagsHuge v = fl ||| 0x80#64 ∧
     Pte.aligned4K frame = true ∧ Pte.huge v = true := by
   unfold bitP bitPS addr1G leafFlagsHuge Pte.mk Pte.aligned4K Pte.huge Pte.HUGE
   unfold Word at *
   refine ⟨?_, ?_, ?_, ?_, ?_, ?_⟩ <;> bv_decide
+
+/-- The raw word `map_to` writes into the page's slot: `frame | flags` (`| HUGE_PAGE` for huge pages). -/
+def leafWord (huge : Bool) (frame flags : Word) : Word := Pte.mk frame (leafFlagsOf huge flags)
+
+/-- Facts about the word `map_to` writes, uniformly for the three page shapes. -/
+theorem leafWord_facts {parents : List Nat} {huge : Bool} {sz : Nat} (sh : PageShape parents huge sz)
+    (frame flags : Word) (hfl : if huge then LeafBitsHuge flags else LeafBits4K flags) (hfr : FrameOK sz frame) :
+    Pte.mk frame (if huge = true then flags ||| Pte.HUGE else flags) = leafWord huge frame flags ∧
+    Pte.aligned4K frame = true ∧
+    bitP (leafWord huge frame flags) = bitP flags ∧
+    (huge = true → bitPS (leafWord huge frame flags) = true) ∧
+    entryFrame sz (leafWord huge frame flags) = frame ∧
+    (if huge then leafFlagsHuge (leafWord huge frame flags) else leafFlags4K (leafWord huge frame flags)) =
+      leafFlagsOf huge flags ∧
+    (parents.length = 3 ∨ tableOf (leafWord huge frame flags) = tableOf 0#64) ∧
+    DormantLeaf parents.length (leafWord huge frame flags) := by
+  have h0 : tableOf (0#64 : Word) = none := by decide
+  cases sh with
+  | s4k a b c =>
+    simp only [Bool.false_eq_true, if_false] at hfl ⊢
+    have hfr' : frame &&& 0xfff0000000000fff#64 = 0#64 := by simpa [FrameOK] using hfr
+    obtain ⟨b1, b2, b3, b4⟩ := leaf4k_bits frame flags hfr' hfl
+    have hw : leafWord false frame flags = Pte.mk frame flags := rfl
+    rw [hw]
+    exact ⟨rfl, b4, b1, (fun hc => by cases hc), by simp [entryFrame, b2], b3, Or.inl rfl, Or.inl rfl⟩
+  | s2m a b =>
+    simp only [if_true] at hfl ⊢
+    have hfr' : frame &&& 0xfff00000001fffff#64 = 0#64 := by simpa [FrameOK] using hfr
+    obtain ⟨b1, b2, b3, b4, b5, b6⟩ := leaf2m_bits frame flags hfr' hfl
+    have hw : leafWord true frame flags = Pte.mk frame (flags ||| Pte.HUGE) := rfl
+    rw [hw]
+    refine ⟨rfl, b5, b1, (fun _ => b2), by simp [entryFrame, b3], by simp [leafFlagsOf, b4], Or.inr ?_,
+      Or.inr ⟨by simp, b6⟩⟩
+    rw [h0]; unfold tableOf; simp [b6]
+  | s1g a =>
+    simp only [if_true] at hfl ⊢
+    have hfr' : frame &&& 0xfff000003fffffff#64 = 0#64 := by simpa [FrameOK] using hfr
+    obtain ⟨b1, b2, b3, b4, b5, b6⟩ := leaf1g_bits frame flags hfr' hfl
+    have hw : leafWord true frame flags = Pte.mk frame (flags ||| Pte.HUGE) := rfl
+    rw [hw]
+    refine ⟨rfl, b5, b1, (fun _ => b2), by simp [entryFrame, b3], by simp [leafFlagsOf, b4], Or.inr ?_,
+      Or.inr ⟨by simp, b6⟩⟩
+    rw [h0]; unfold tableOf; simp [b6]
+
+/-- What a successful `map_to` guarantees (requested leaf flags with or without `PRESENT`). -/
+structure MapPost (s s' : St) (p4 : Word) (parents : List Nat) (li : Nat) (huge : Bool) (sz : Nat)
+    (frame flags : Word) : Prop where
+  inv : Inv s'.mem p4
+  /-- the page was not translated before -/
+  before : ∀ va, parents ++ [li] <+: vaPath va → walk s.mem p4 va = none
+  /-- flags with `PRESENT`: every address of the page now translates to the frame -/
+  present : flags &&& 1#64 = 1#64 → ∀ va, parents ++ [li] <+: vaPath va →
+    ∃ x, walk s'.mem p4 va = some x ∧ x.base = frame.toNat ∧ x.size = sz ∧ x.off = va % sz ∧
+      x.flags = leafFlagsOf huge flags
+  /-- flags without `PRESENT`: the hardware still sees "not mapped" -/
+  dormant : flags &&& 1#64 = 0#64 → ∀ va, parents ++ [li] <+: vaPath va → walk s'.mem p4 va = none
+  /-- every other address keeps its mapping -/
+  other : ∀ va, ¬ parents ++ [li] <+: vaPath va →
+    (walk s'.mem p4 va).map Xlat.core = (walk s.mem p4 va).map Xlat.core
+  /-- the page's slot holds the raw word `frame | flags (| HUGE_PAGE)` -/
+  slot : ∃ t, tblAt s'.mem p4 parents = some t ∧ s'.mem t li = leafWord huge frame flags
+  /-- flags with `PRESENT` keep "every non-zero entry is present" -/
+  strict : flags &&& 1#64 = 1#64 → AllPresent s.mem p4 → AllPresent s'.mem p4
+
+/-- What a failed `map_to` guarantees. -/
+structure MapErrPost (s s' : St) (p4 : Word) (parents : List Nat) (li : Nat) (e : MapErr) : Prop where
+  inv : Inv s'.mem p4
+  core : ∀ va, (walk s'.mem p4 va).map Xlat.core = (walk s.mem p4 va).map Xlat.core
+  strict : AllPresent s.mem p4 → AllPresent s'.mem p4
+  /-- `PageAlreadyMapped` is reported only for a slot that holds a non-zero entry (present or not) -/
+  used : e = .alreadyMapped → ∃ t, tblAt s'.mem p4 parents = some t ∧ s'.mem t li ≠ 0#64
+
+/-- **map_to**, general form (any mapper kind, any page size, any allocator behaviour, leaf flags with
+or without `PRESENT`): it never panics; on success the slot holds `frame | flags`, the page's addresses
+translate to the frame iff the flags contain `PRESENT` (otherwise the hardware keeps seeing "not
+mapped"), every other address keeps its mapping and the invariant holds; on error no address changes
+its mapping and the invariant holds. -/
+theorem map_to_full (k : Kind) (s : St) (p4 : Word) (parents : List Nat) (li : Nat) (huge : Bool) (sz : Nat)
+    (frame flags pflags : Word)
+    (sh : PageShape parents huge sz) (hinv : Inv s.mem p4) (hpi : IdxOK parents)
+    (hpf : ParentFlagsOK pflags) (hfl : if huge then LeafBitsHuge flags else LeafBits4K flags)
+    (hfr : FrameOK sz frame) (hal : AllocsOK s.mem p4 s.allocs) :
+    match mapTo k s p4 parents li huge frame flags pflags with
+    | (.panic, _) => False
+    | (.ok (.error e), s') => MapErrPost s s' p4 parents li e
+    | (.ok (.ok ()), s') => MapPost s s' p4 parents li huge sz frame flags := by
+  obtain ⟨hl1, hl3⟩ := sh.len_le
+  obtain ⟨w1, w2, w3, w4, w5, w6, w7, w8⟩ := leafWord_facts sh frame flags hfl hfr
+  have hcp := createPath_ok k pflags p4 hpf parents [] p4 s hinv rfl (by simpa using hl3) (by simpa using hpi) hal
+  unfold mapTo
+  cases hc : createPath k pflags s p4 parents with
+  | mk res s1 =>
+    rw [hc] at hcp
+    cases res with
+    | panic => exact hcp
+    | ok res' =>
+      cases res' with
+      | error e =>
+        cases e <;> exact ⟨hcp.inv, hcp.core, hcp.strict, fun hc => by cases hc⟩
+      | ok tl =>
+        obtain ⟨hs1, htl⟩ := hcp
+        simp only [List.nil_append] at htl
+        simp only [St.rd_fst]
+        by_cases hu : Pte.isUnused (s1.mem tl li) = true
+        · have hzero : s1.mem tl li = 0#64 := by simpa [Pte.isUnused] using hu
+          simp only [hu, Bool.not_true, Bool.false_eq_true, if_false, w1, w2, St.wr_mem, St.rd_mem]
+          have hz : ∀ m' lvl va rw us, entryStep m' lvl 0#64 va rw us = none := by
+            intro m' lvl va rw us; unfold entryStep; simp [bitP]
+          -- before: every address of the page is unmapped (already in `s`, since no mapping changed)
+          have hbefore : ∀ va, parents ++ [li] <+: vaPath va → walk s.mem p4 va = none := by
+            intro va hva
+            obtain ⟨rw, us, h1⟩ := walk_reach s1.mem p4 hs1.inv.wf parents tl li va htl hl3 hva
+            have := hs1.core va
+            rw [h1, hzero, hz] at this
+            cases hw : walk s.mem p4 va with
+            | none => rfl
+            | some x => rw [hw] at this; cases this
+          have hv : parents.length = 3 ∨ tableOf (leafWord huge frame flags) = tableOf (s1.mem tl li) := by
+            rw [hzero]; exact w7
+          have hnew : ∀ va, parents ++ [li] <+: vaPath va →
+              ∃ x : Xlat, walk (s1.mem.set tl li (leafWord huge frame flags)) p4 va =
+                  (if bitP flags = true then some x else none) ∧
+                x.base = frame.toNat ∧ x.size = sz ∧ x.off = va % sz ∧ x.flags = leafFlagsOf huge flags := by
+            intro va hva
+            obtain ⟨rw, us, _, h2⟩ := walk_set_on s1.mem p4 hs1.inv.wf tl li (leafWord huge frame flags) va _ htl hl3 hva
+            obtain ⟨x, hx, xb, xs, xo, xf⟩ := entryStep_leaf sh (s1.mem.set tl li (leafWord huge frame flags))
+              (leafWord huge frame flags) va rw us w4
+            exact ⟨x, by rw [h2, hx, w3], by rw [xb, w5], xs, xo, by rw [xf, w6]⟩
+          refine ⟨?_, hbefore, ?_, ?_, ?_, ?_, ?_⟩
+          all_goals simp only [St.wr_mem, St.rd_mem]
+          · apply Inv_set' s1.mem p4 hs1.inv parents tl li _ htl hl3 hpi hv (Or.inr (Or.inr w8))
+            intro hp; rw [hp] at hl1; simp at hl1
+          · intro hf va hva
+            obtain ⟨x, hx, rest⟩ := hnew va hva
+            exact ⟨x, by rw [hx, bitP_of_present flags hf]; rfl, rest⟩
+          · intro hf va hva
+            obtain ⟨x, hx, _⟩ := hnew va hva
+            rw [hx, bitP_of_not_present flags hf]; rfl
+          · intro va hva
+            rw [walk_set_off s1.mem p4 hs1.inv.wf _ tl li _ htl hl3 hpi va hva]
+            exact hs1.core va
+          · refine ⟨tl, ?_, PMem.set_same _ _ _ _⟩
+            rw [tblAt_set_eq_root s1.mem p4 hs1.inv.wf parents tl li _ htl hl3 hpi hv parents hl3 hpi]
+            exact htl
+          · intro hf hst
+            exact AllPresent_set s1.mem p4 hs1.inv.wf (hs1.strict hst) parents tl li _ htl hl3 hpi hv
+              (Or.inr (by rw [present_eq_bitP, w3]; exact bitP_of_present flags hf))
+        · have hu' : Pte.isUnused (s1.mem tl li) = false := by simpa using hu
+          simp only [hu', Bool.not_false, if_true, St.rd_mem]
+          refine ⟨hs1.inv, hs1.core, hs1.strict, fun _ => ⟨tl, htl, ?_⟩⟩
+          intro h0
+          have h0' : s1.mem tl li = 0#64 := h0
+          rw [h0'] at hu'; simp [Pte.isUnused] at hu'
 
 /-- **map_to** (any mapper kind, any page size, any allocator behaviour):
 * it never panics;
@@ -46,7 +199,8 @@ private theorem leaf1g_bits (frame fl : Word) (hf : frame &&& 0xfff000003fffffff
   with the page's size and exactly the requested leaf flags (plus `HUGE_PAGE` for huge pages),
   every other address keeps its mapping, and the invariant holds;
 * on error (page already mapped, parent is a huge page, allocation failed at any of the up to
-  three allocation points) no address changes its mapping and the invariant holds. -/
+  three allocation points) no address changes its mapping and the invariant holds.
+(Leaf flags with `PRESENT`, which the second item needs; `map_to_full` is the general form.) -/
 theorem map_to_spec (k : Kind) (s : St) (p4 : Word) (parents : List Nat) (li : Nat) (huge : Bool) (sz : Nat)
     (frame flags pflags : Word)
     (sh : PageShape parents huge sz) (hinv : Inv s.mem p4) (hpi : IdxOK parents) (hli : li < 512)
@@ -64,94 +218,20 @@ theorem map_to_spec (k : Kind) (s : St) (p4 : Word) (parents : List Nat) (li : N
                  x.flags = leafFlagsOf huge flags) ∧
         (∀ va, ¬ parents ++ [li] <+: vaPath va →
             (walk s'.mem p4 va).map Xlat.core = (walk s.mem p4 va).map Xlat.core) := by
-  obtain ⟨hl1, hl3⟩ := sh.len_le
-  have hcp := createPath_ok k pflags p4 hpf parents [] p4 s hinv rfl (by simpa using hl3) (by simpa using hpi) hal
-  unfold mapTo
-  cases hc : createPath k pflags s p4 parents with
-  | mk res s1 =>
-    rw [hc] at hcp
+  have hfull := map_to_full k s p4 parents li huge sz frame flags pflags sh hinv hpi hpf
+    (leafBits_of_leafFlags hfl) hfr hal
+  have hp := present_of_leafFlags hfl
+  cases hm : mapTo k s p4 parents li huge frame flags pflags with
+  | mk res s' =>
+    rw [hm] at hfull
     cases res with
-    | panic => exact hcp
-    | ok res' =>
-      cases res' with
-      | error e =>
-        cases e <;> exact ⟨hcp.inv, hcp.core⟩
-      | ok tl =>
-        obtain ⟨hs1, htl⟩ := hcp
-        simp only [List.nil_append] at htl
-        simp only [St.rd_fst]
-        by_cases hu : Pte.isUnused (s1.mem tl li) = true
-        · have hzero : s1.mem tl li = 0#64 := by simpa [Pte.isUnused] using hu
-          simp only [hu, Bool.not_true, Bool.false_eq_true, if_false]
-          have hz : ∀ m' lvl va rw us, entryStep m' lvl 0#64 va rw us = none := by
-            intro m' lvl va rw us; unfold entryStep; simp [bitP]
-          -- before: every address of the page is unmapped (already in `s`, since no mapping changed)
-          have hbefore : ∀ va, parents ++ [li] <+: vaPath va → walk s.mem p4 va = none := by
-            intro va hva
-            obtain ⟨rw, us, h1⟩ := walk_reach s1.mem p4 hs1.inv.wf parents tl li va htl hl3 hva
-            have := hs1.core va
-            rw [h1, hzero, hz] at this
-            cases hw : walk s.mem p4 va with
-            | none => rfl
-            | some x => rw [hw] at this; cases this
-          cases sh with
-          | s4k a b c =>
-            simp only [Bool.false_eq_true, if_false] at hfl ⊢
-            have hfr' : frame &&& 0xfff0000000000fff#64 = 0#64 := by simpa [FrameOK] using hfr
-            obtain ⟨b1, b2, b3, b4⟩ := leaf4k_bits frame flags hfr' hfl.1 hfl.2
-            simp only [b4, Bool.not_true, Bool.false_eq_true, if_false, St.wr_mem, St.rd_mem]
-            refine ⟨?_, ?_, ?_⟩
-            · exact Inv_set s1.mem p4 hs1.inv _ tl li _ htl hl3 hpi (Or.inl rfl) (Or.inr b1) (fun hp => by cases hp)
-            · intro va hva
-              refine ⟨hbefore va hva, ?_⟩
-              obtain ⟨rw, us, _, h2⟩ := walk_set_on s1.mem p4 hs1.inv.wf tl li (Pte.mk frame flags) va _ htl hl3 hva
-              refine ⟨leafXlat 1 (Pte.mk frame flags) va rw us, ?_, ?_⟩
-              · rw [h2]; unfold entryStep; simp [b1]
-              · simp [leafXlat, b2, b3, leafFlagsOf]
-            · intro va hva
-              rw [walk_set_off s1.mem p4 hs1.inv.wf _ tl li _ htl hl3 hpi va hva]
-              exact hs1.core va
-          | s2m a b =>
-            simp only [if_true] at hfl ⊢
-            have hfr' : frame &&& 0xfff00000001fffff#64 = 0#64 := by simpa [FrameOK] using hfr
-            obtain ⟨b1, b2, b3, b4, b5, b6⟩ := leaf2m_bits frame flags hfr' hfl.1 hfl.2
-            simp only [b5, Bool.not_true, Bool.false_eq_true, if_false, St.wr_mem, St.rd_mem]
-            refine ⟨?_, ?_, ?_⟩
-            · apply Inv_set s1.mem p4 hs1.inv _ tl li _ htl hl3 hpi _ (Or.inr b1) (fun hp => by cases hp)
-              right
-              have h0 : tableOf (0#64 : Word) = none := by decide
-              rw [hzero, h0]; unfold tableOf; simp [b6]
-            · intro va hva
-              refine ⟨hbefore va hva, ?_⟩
-              obtain ⟨rw, us, _, h2⟩ := walk_set_on s1.mem p4 hs1.inv.wf tl li (Pte.mk frame (flags ||| Pte.HUGE)) va _ htl hl3 hva
-              refine ⟨leafXlat 2 (Pte.mk frame (flags ||| Pte.HUGE)) va rw us, ?_, ?_⟩
-              · rw [h2]; unfold entryStep; simp [b1, b2]
-              · simp [leafXlat, b3, b4, leafFlagsOf]
-            · intro va hva
-              rw [walk_set_off s1.mem p4 hs1.inv.wf _ tl li _ htl hl3 hpi va hva]
-              exact hs1.core va
-          | s1g a =>
-            simp only [if_true] at hfl ⊢
-            have hfr' : frame &&& 0xfff000003fffffff#64 = 0#64 := by simpa [FrameOK] using hfr
-            obtain ⟨b1, b2, b3, b4, b5, b6⟩ := leaf1g_bits frame flags hfr' hfl.1 hfl.2
-            simp only [b5, Bool.not_true, Bool.false_eq_true, if_false, St.wr_mem, St.rd_mem]
-            refine ⟨?_, ?_, ?_⟩
-            · apply Inv_set s1.mem p4 hs1.inv _ tl li _ htl hl3 hpi _ (Or.inr b1) (fun hp => by cases hp)
-              right
-              have h0 : tableOf (0#64 : Word) = none := by decide
-              rw [hzero, h0]; unfold tableOf; simp [b6]
-            · intro va hva
-              refine ⟨hbefore va hva, ?_⟩
-              obtain ⟨rw, us, _, h2⟩ := walk_set_on s1.mem p4 hs1.inv.wf tl li (Pte.mk frame (flags ||| Pte.HUGE)) va _ htl hl3 hva
-              refine ⟨leafXlat 3 (Pte.mk frame (flags ||| Pte.HUGE)) va rw us, ?_, ?_⟩
-              · rw [h2]; unfold entryStep; simp [b1, b2]
-              · simp [leafXlat, b3, b4, leafFlagsOf]
-            · intro va hva
-              rw [walk_set_off s1.mem p4 hs1.inv.wf _ tl li _ htl hl3 hpi va hva]
-              exact hs1.core va
-        · have hu' : Pte.isUnused (s1.mem tl li) = false := by simpa using hu
-          simp only [hu', Bool.not_false, if_true, St.rd_mem]
-          exact ⟨hs1.inv, hs1.core⟩
+    | panic => exact hfull
+    | ok r =>
+      cases r with
+      | error e => exact ⟨hfull.inv, hfull.core⟩
+      | ok u =>
+        cases u
+        exact ⟨hfull.inv, fun va hva => ⟨hfull.before va hva, hfull.present hp va hva⟩, hfull.other⟩
 
 /-- Starting point of every history: an all-zero level-4 table satisfies the invariant. -/
 theorem init_inv (m : PMem) (p4 : Word) (h : ∀ i, m p4 i = 0#64) : Inv m p4 := Inv_init m p4 h
